@@ -59,13 +59,19 @@ ARGSETS: dict[str, list[str]] = {
 def cases(tier: str) -> list[dict[str, Any]]:
     th = tier == "thorough"
     cs: list[dict[str, Any]] = []
-    groups = [["a", "b", "c", "e"], ["c", "d", "h", "li", "ld"], ["e", "f", "g", "le"], ["lo", "big", "a"]]
+    # which entries' presence is solver-chosen (the others: a, c, e present, the rest absent); three per group keeps the
+    # path count per case small; settings that only need to be *covered* are fixed per profile instead of symbolic
+    groups = [["a", "b", "e"], ["c", "d", "h"], ["li", "ld", "c"], ["e", "f", "g"], ["le", "e", "g"], ["lo", "big", "a"]]
     if th:
         groups += [["a", "c", "e", "g", "li", "lo"], ["b", "d", "f", "h", "ld", "big"]]
+    profiles = [dict(reverse=False, ext_inc=False, exclude_given=False), dict(reverse=True, ext_inc=True, exclude_given=True)]
     for an, args in ARGSETS.items():
         for gi, grp in enumerate(groups):
-            cs.append(dict(key=f"resolve/{an}/g{gi}", kind="resolve", args=args, argset=an, symbolic_entries=grp, cost=len(args)))
-    cs.append(dict(key="twin/resolve", kind="resolve", args=["."], argset="dir", symbolic_entries=["a", "c"], twin=True))
+            for pi, prof in enumerate(profiles):
+                if not th and (gi + pi) % 2 == 1 and an not in ("dir", "explicit", "glob-rec", "mixed"):
+                    continue
+                cs.append(dict(key=f"resolve/{an}/g{gi}/p{pi}", kind="resolve", args=args, argset=an, symbolic_entries=grp, profile=prof, cost=len(args)))
+    cs.append(dict(key="twin/resolve", kind="resolve", args=["."], argset="dir", symbolic_entries=["a", "c"], profile=profiles[0], twin=True))
     return cs
 
 
@@ -102,10 +108,12 @@ def run(env: Any, case: dict[str, Any]) -> Any:
             tname = [n for n, _k, r, _t, _s in ENTRIES if r == target][0]
             present[name] = present[name] and present[tname]
     force_exclude = bool(env.bool("force_exclude"))
-    ext_inc = bool(env.bool("extend_include_txt"))
+    prof = case["profile"]
+    ext_inc = prof["ext_inc"]
     ext_exc = bool(env.bool("extend_exclude_drafts"))
     has_ignore = bool(env.bool("has_flowmarkignore"))
-    reverse = bool(env.bool("reverse_listing"))
+    own_exclude = prof["exclude_given"]   # `exclude` given explicitly (here: the one default this tree uses) - extend_exclude must still apply
+    reverse = prof["reverse"]
     limit = env.int("files_max_size", lo=0)
     sizes = {sv: env.int(sv, lo=0, hi=4000) for _n, _k, _r, _t, sv in ENTRIES if sv}
     base = Path(tempfile.mkdtemp(prefix="c17_")).resolve()
@@ -160,7 +168,8 @@ def run(env: Any, case: dict[str, Any]) -> Any:
         R.os.walk = walk
 
         def resolve(args: list[str]) -> Any:
-            cfg = FileResolverConfig(extend_include=["*.txt"] if ext_inc else [], extend_exclude=["drafts/"] if ext_exc else [], force_exclude=force_exclude, files_max_size=limit)
+            cfg = FileResolverConfig(extend_include=["*.txt"] if ext_inc else [], exclude=["node_modules/"] if own_exclude else None, extend_exclude=["drafts/"] if ext_exc else [],
+                                     force_exclude=force_exclude, files_max_size=limit)
             return FileResolver(cfg).resolve([str(root) if a == "@root" else a for a in args])
 
         rels = {rel for n, k, rel, t, sv in ENTRIES if present[n]}
